@@ -80,13 +80,39 @@ def addr_of_result(nc, table, doc):
     return table[id(nc.parent)] + [codec.ref_of(nc.parent, nc.parentref)]
 
 
+def anchorize(docj):
+    """Give every non-null scalar its own anchor: json_to_ruamel then builds the wrapper objects the
+    round-trip loader yields for anchored scalars (ScalarBoolean, ScalarInt, ScalarFloat,
+    PlainScalarString).  The keyword definitions do not depend on that representation."""
+    n = [0]
+
+    def go(j):
+        k = j.get("k")
+        if k == "map":
+            return dict(j, e=[[kk, go(v)] for kk, v in j["e"]])
+        if k == "seq":
+            return dict(j, i=[go(v) for v in j["i"]])
+        if k in ("bool", "int", "float", "str") and "a" not in j:
+            n[0] += 1
+            return dict(j, a="zw%d" % n[0])
+        return j
+    return go(docj)
+
+
+def maybe_anchorize(docj, path):
+    import zlib
+    if zlib.crc32((json.dumps(docj, sort_keys=True) + path).encode()) % 4 == 0:
+        return anchorize(docj)
+    return docj
+
+
 def run_kw(docj, path, want_kw, want_inv, want_params):
     """Outcome of the query on the real Processor: (expressible?, outcome) with outcome
     {"nodes": [addr…]} | {"names": [key/index…]} | {"err": class, "site":…, "partial": n}."""
     from yamlpath import Processor, YAMLPath
     from yamlpath.enums import PathSegmentTypes
     from yamlpath.path.searchkeywordterms import SearchKeywordTerms
-    doc = codec.json_to_ruamel(docj)
+    doc = codec.json_to_ruamel(maybe_anchorize(docj, path))
     table = codec.build_addr_table(doc)
 
     def parse():
